@@ -47,7 +47,7 @@ def label(e, env):
         return "[%s]" % ",".join(str(label(x, env)) for x in e["elems"])
     if e["k"] == "Match":
         try:
-            arms = ["%s=>%s" % (v, label(a["body"], env)) for v, a, pat in hir.arms_by_variant(e)]
+            arms = sorted("%s=>%s" % (v, label(a["body"], env)) for v, a, pat in hir.arms_by_variant(e))     # disjoint arms: order-free
             return "match(%s){%s}" % (label(e["scrut"], env), ";".join(arms))
         except Unrecognised:
             return "<Match>"
@@ -66,6 +66,7 @@ class Emit:
     def __init__(self, facts, sink_names=("out", "s")):
         self.f = facts
         self.sinks = set(sink_names)
+        self.lets = {}
 
     def is_sink(self, e, env):
         p = field_path(e)
@@ -76,6 +77,7 @@ class Emit:
         if it is None or depth > 5:
             raise Unrecognised("cannot inline %s" % path)
         env = {}
+        self.lets.update(hir.let_env(it["body"]))
         for i, p in enumerate(it["params"]):
             if p["k"] == "Binding":
                 if i < len(args):
@@ -190,7 +192,7 @@ class Emit:
             args = hir.call_args(x)
             c = callee(x)
             if nm == "join_lest_multiple_separators" and self.is_sink(args[0], env):
-                arr = [n for n in hir.walk(args[1]) if n.get("k") == "Array"]
+                arr = [n for n in hir.walk(hir.through_lets(args[1], self.lets)) if n.get("k") == "Array"]      # `let items = [a, b, c];` read through
                 items = [label(a, env) for a in arr[0]["elems"]] if arr else [label(args[1], env)]
                 return [("joinlest", items, label(args[2], env))]
             if nm == "join_to" and self.is_sink(args[0], env):
